@@ -11,6 +11,7 @@ from .overlap import spec_of_shell, sym_shell_pair
 
 
 class DiffIntermediate:
+    fp = True  # also sampled on the unmodified float64 code (bounded stand-in for rounding)
     """out[k,j,i,ax,pb,pa] = int (x-A)^i e^{-a(x-A)^2} d^k/dx^k[(x-B)^j e^{-b(x-B)^2}] dx for all
     k <= order_diff_max, i <= a_max, j <= b_max (padding by the derivative order is internal)"""
 
@@ -113,6 +114,7 @@ def _pair_shapes(tier, lq, lt, extra=True):
 
 
 class BlockBase:
+    fp = True
     lq, lt = 2, 4
 
     def shapes(self, tier):
@@ -196,6 +198,7 @@ class AngMomBlock(BlockBase):
 
 
 class MomentBlock:
+    fp = True  # also sampled on the unmodified float64 code (bounded stand-in for rounding)
     """Moment.construct_array_contraction(s1, s2, origin, orders)[m1,c1,m2,c2,d] =
     <phi~1| (x-X)^i (y-Y)^j (z-Z)^k |phi~2> for orders[d] = (i,j,k), in the order given; argument validation"""
 
